@@ -134,6 +134,9 @@ func protoCmd(r *RNG, keys []string) []byte {
 		v := protoValue(r)
 		verb := []string{"set", "set", "set", "add", "replace"}[r.Intn(5)]
 		flag := []int{0, 1, 16, 516, 7}[r.Intn(5)]
+		if r.Chance(4) {
+			flag |= 0x10000 // the server-reserved bit: the store must refuse the value (it would be fed to the decompressor on every read)
+		}
 		rev := 0
 		if r.Chance(25) {
 			rev = 1 + r.Intn(8)
